@@ -94,6 +94,28 @@ fn native_spec() {
                 }
             }
         }
+        // a value-taking argument still in progress when `--` arrives (incl. negative-number-friendly ones)
+        for neg in [false, true] {
+            for tail in [vec!["-v", "--help"], vec!["-x"], vec!["--", "x"], vec!["sub"]] {
+                let cmd = Command::new("p")
+                    .arg(Arg::new("v").short('v').action(ArgAction::SetTrue))
+                    .arg(Arg::new("nums").index(1).num_args(1..).allow_negative_numbers(neg).action(ArgAction::Append))
+                    .subcommand(Command::new("sub"));
+                let mut argv = vec!["p", "7", "--"];
+                argv.extend(tail.iter().copied());
+                let mut want = vec!["7".to_string()];
+                want.extend(tail.iter().map(|s| s.to_string()));
+                match cmd.try_get_matches_from(argv.clone()) {
+                    Ok(m) => {
+                        let got: Vec<String> = m.get_many::<String>("nums").map(|v| v.cloned().collect()).unwrap_or_default();
+                        if got != want || m.get_flag("v") || m.subcommand_name().is_some() {
+                            println!("SPEC-REPLAY MISMATCH target={target} case={argv:?} allow_negative_numbers={neg}: positional got {got:?}, v={} sub={:?}", m.get_flag("v"), m.subcommand_name());
+                        }
+                    }
+                    Err(e) => println!("SPEC-REPLAY MISMATCH target={target} case={argv:?} allow_negative_numbers={neg}: rejected as {:?}", e.kind()),
+                }
+            }
+        }
     } else if target == "id_closures_total" {
         // C01: parsing never panics.  Commands whose matcher holds GROUP ids next to argument ids, in the
         // situations where the parser/validator maps over all matcher ids to build an error.
